@@ -4,6 +4,7 @@ import (
 	"fmt"
 	"math"
 	"reflect"
+	"strings"
 
 	"github.com/tuneinsight/lattigo/v6/core/rlwe"
 	"github.com/tuneinsight/lattigo/v6/ring"
@@ -631,7 +632,7 @@ func acceptScenarios(tier string) (scs, slow []engine.Scenario) {
 				scs = append(scs, familySizes(s, rt, n))
 			}
 		}
-		scs = append(scs, familyDist(s))
+		scs = append(scs, familyDist(s), familyLongChains(s))
 		for _, n := range []int{-5, -1, 0, 3, 4, 12, 20, 21, 31, 62} {
 			scs = append(scs, familyLogNGen(s, n))
 		}
@@ -657,4 +658,91 @@ func acceptScenarios(tier string) (scs, slow []engine.Scenario) {
 		}
 	}
 	return
+}
+
+// familyLongChains: every per-literal requirement on moduli chains longer than any fixed-size table could hold
+// (Q‖P of 31, 32, 33, 40, 64 moduli, several Q/P splits), with the offending element at every position class.
+func familyLongChains(s scheme) engine.Scenario {
+	name := fmt.Sprintf("accept/long-chains/%s", s)
+	logN := 4
+	m := uint64(1) << (logN + 2)
+	pool := ref.PrimesNear(1<<30, m, 70, true) // 70 distinct 30-bit primes = 1 mod 4N
+	lengths := []int{31, 32, 33, 40, 64}
+	type split struct {
+		name string
+		np   func(M int) int
+	}
+	splits := []split{{"P=1", func(int) int { return 1 }}, {"P=3", func(int) int { return 3 }}, {"P=M/2", func(M int) int { return M / 2 }}, {"Q=8", func(M int) int { return M - 8 }}, {"P=0", func(int) int { return 0 }}}
+	kinds := []string{"valid", "dup-in-Q-first-last", "dup-in-Q-adjacent-at-end", "dup-in-P-first-last", "P-last=Q-first", "P-last=Q-last", "P-first=Q-last", "P-first=Q-first",
+		"composite-last-in-Q", "composite-last-in-P", "non-ntt-friendly-last-in-Q", "non-ntt-friendly-last-in-P", "zero-last-in-P"}
+	return engine.Scenario{Name: name, Bound: -1, Fn: func(c *engine.Chooser) {
+		M := lengths[c.Choose(len(lengths), "length")]
+		sp := splits[c.Choose(len(splits), "split")]
+		kind := kinds[c.Choose(len(kinds), "kind")]
+		np := sp.np(M)
+		nq := M - np
+		uni.Seed(c, name, M, sp.name, kind)
+		q := append([]uint64{}, pool[:nq]...)
+		p := append([]uint64{}, pool[nq:M]...)
+		needP := strings.Contains(kind, "P")
+		if needP && np == 0 || strings.HasPrefix(kind, "dup-in-P") && np < 2 {
+			c.Skip("kind needs (more) P moduli")
+			return
+		}
+		bad := kind != "valid"
+		comp := pool[68] * pool[69] // 60-bit composite = 1 mod 4N
+		switch kind {
+		case "dup-in-Q-first-last":
+			q[nq-1] = q[0]
+		case "dup-in-Q-adjacent-at-end":
+			q[nq-1] = q[nq-2]
+		case "dup-in-P-first-last":
+			p[np-1] = p[0]
+		case "P-last=Q-first":
+			p[np-1] = q[0]
+		case "P-last=Q-last":
+			p[np-1] = q[nq-1]
+		case "P-first=Q-last":
+			p[0] = q[nq-1]
+		case "P-first=Q-first":
+			p[0] = q[0]
+		case "composite-last-in-Q":
+			q[nq-1] = comp
+		case "composite-last-in-P":
+			p[np-1] = comp
+		case "non-ntt-friendly-last-in-Q":
+			q[nq-1] = 1073741827 // prime, = 3 mod 64
+		case "non-ntt-friendly-last-in-P":
+			p[np-1] = 1073741827
+		case "zero-last-in-P":
+			p[np-1] = 0
+		}
+		l := lit{sch: s}
+		l.rl.LogN, l.rl.Q, l.rl.P = logN, q, p
+		if np == 0 {
+			l.rl.P = nil
+		}
+		defaults(&l)
+		if l.sch == sBGV {
+			l.t = 257
+		}
+		if l.sch == sCKKS {
+			l.logScale = 20
+		}
+		c.Cover("long-chain", fmt.Sprintf("M=%d", M))
+		c.Cover("long-chain", kind)
+		pos := "position<32"
+		if M > 32 {
+			pos = "position>=32"
+		}
+		c.Cover("long-chain", pos)
+		// the structure oracle of smoke.go reports a modulus shared by Q and P under its own signature; every other
+		// kind must be refused
+		must := bad && !strings.Contains(kind, "=Q-")
+		class := kind
+		if nq > 32 || np > 32 {
+			class += "-basis>32" // input class of the fixed [32]uint64 tables in ring/basis_extension.go (FINDINGS 13)
+		}
+		judge(c, "accept/long-chains", class, fmt.Sprintf("#Q=%d #P=%d (%s) %s", nq, np, sp.name, kind), l, must, true)
+	}}
 }
